@@ -181,7 +181,7 @@ func (c *regCtl) tssRecv(t *rapid.T) {
 	if s.Acc.Equals(w.TSS.Acc) {
 		cls = "tss-account-" + cls
 	}
-	out := w.DeliverDumped(ci, s, packettypes.NewMsgRecvPacket(bz, []byte{}, bridge.H(0, 1), s.Acc))
+	out := w.DeliverDumped(ci, s, packettypes.NewMsgRecvPacket(bz, c.tssProofField(t), bridge.H(0, 1), s.Acc))
 	c.judge("recv", "tss", cls, auth, out, fmt.Sprintf("TSS-path receive on chain %d by %s", ci, s.Acc))
 	if out.Res.OK() {
 		_, acks := kit.WrittenAcks(out.Res)
@@ -255,7 +255,7 @@ func (c *regCtl) tssAck(t *rapid.T) {
 	if isTSS {
 		cls = "tss-account-" + cls
 	}
-	out := w.DeliverDumped(p.SrcIdx, s, packettypes.NewMsgAcknowledgement(p.Bz, ackBz, []byte{}, bridge.H(0, 1), s.Acc))
+	out := w.DeliverDumped(p.SrcIdx, s, packettypes.NewMsgAcknowledgement(p.Bz, ackBz, c.tssProofField(t), bridge.H(0, 1), s.Acc))
 	if !isTSS {
 		c.judge("ack", "tss", cls, false, out, fmt.Sprintf("TSS-path ack of %s by %s", p.T, s.Acc))
 	} else {
@@ -267,6 +267,23 @@ func (c *regCtl) tssAck(t *rapid.T) {
 		}
 	}
 	m.Log("tssAck", fmt.Sprintf("%s by %s (%s)", p.T, s.Acc, cls), fmt.Sprintf("ok=%v", out.Res.OK()))
+}
+
+// tssProofField draws the content of the proof field of a message on a TSS-secured path: the field carries no
+// meaning there (the signer is what counts), so whatever it holds - nothing, the public TSS address, the
+// signer's own address, junk - must not change who is authorised.
+func (c *regCtl) tssProofField(t *rapid.T) []byte {
+	w := c.m.W
+	switch rapid.IntRange(0, 4).Draw(t, "tssProofField") {
+	case 0:
+		return []byte{}
+	case 1, 2:
+		return []byte(w.TSS.Acc.String())
+	case 3:
+		return []byte(strings.ToLower(w.TSS.Addr.Hex()))
+	default:
+		return rapid.SliceOfN(rapid.Byte(), 1, 40).Draw(t, "junkProof")
+	}
 }
 
 func (c *regCtl) sendTSS(t *rapid.T) {
